@@ -232,6 +232,11 @@ def fit_cases(ctx, rs, nfits):
             kw["n_hidden_dim"] = int(rs.randint(1, 4))
         if fl.accepts(cls, "reg"):
             kw["reg"] = float(rs.choice([0.0, 0.1, 1.0]))
+            if fam == "RIM" and it % 20 == 1:
+                # dedicated: the penalised RIM on ONE feature (W_ is 1 x K and looks like a bias row; seeded change C03-15)
+                X, d = np.ascontiguousarray(X[:, :1]), 1
+                kw["reg"] = 1.0
+                ctx.count("fit:RIM:one-feature-penalised")
         if fl.accepts(cls, "alpha"):
             kw["alpha"] = float(rs.choice([0.0, 0.01, 0.5]))
             if it % 4 == 1:
